@@ -103,5 +103,7 @@ func (d *OrdDom) Convert(in *Interp, x Val, from, to types.Type, pos ssa.Instruc
 func (d *OrdDom) Call(in *Interp, site ssa.Instruction, fn *ssa.Function, args []Val) ([]Val, bool) {
 	return nil, false
 }
-func (d *OrdDom) Branch(in *Interp, cond Val, site *ssa.If) (bool, bool, bool) { return false, false, false }
-func (d *OrdDom) Assume(in *Interp, cond Val, truth bool, site *ssa.If)         {}
+func (d *OrdDom) Branch(in *Interp, cond Val, site *ssa.If) (bool, bool, bool) {
+	return false, false, false
+}
+func (d *OrdDom) Assume(in *Interp, cond Val, truth bool, site *ssa.If) {}
